@@ -331,7 +331,7 @@ def lockReadCheck (st : Store) (args tail : List String) : Option String :=
     the model store shows at the timestamp the call carries (the snapshot's timestamp in force); `some msg` = it does not.
     Calls that ended with an error other than `notfound` are not judged. -/
 def snapCheck (st : Store) (call : String) (args tail : List String) : Option String :=
-  let vis (k : Bytes) (ts : Nat) : Option Bytes := (visible st k ts).filter (!·.isEmpty)
+  let vis (k : Bytes) (ts : Nat) : Option Bytes := (visibleL st k ts).filter (!·.isEmpty)
   let opts := (args.getLast?.getD "").splitOn ","
   let keyOnly := opts.contains "ko=1"
   match call, args with
@@ -363,7 +363,7 @@ def snapCheck (st : Store) (call : String) (args tail : List String) : Option St
       if tail.headD "" != "ok" then none
       else
         let got := parseKVs (tail.getD 1 "-")
-        let all := (snapRange st lo hi ts).filter (!·.2.isEmpty)
+        let all := (snapRangeL st lo hi ts).filter (!·.2.isEmpty)
         let dir := if c == "snapriter" then all.reverse else all
         let exp := if lim == 0 then dir else dir.take lim
         -- key only: the store may omit the values (the stores of both profiles do not)
